@@ -24,6 +24,8 @@ type Engine struct {
 	allFuncs map[*ssa.Function]bool
 	byName   map[string]*ssa.Function // fn.String() -> fn
 	errors   []string
+	accMemo  map[*ssa.Alloc]int
+	errProps map[string][]string // contract-load error -> properties of the contract it belongs to
 	effVC    *VC
 	effMemo  map[*ssa.Function]*effSet
 	addrTaken map[*ssa.Function]bool
@@ -129,6 +131,13 @@ type VC struct {
 	topFrame    *Frame
 	lastRet     map[string][]Val
 	retLog      []retEntry       // results of calls of the top frame, in execution order
+	verClk      map[Term]Term    // heap version -> clock bound of every reference it holds
+	seenFact    map[string]bool
+	curReach    Term // path condition of the instruction being executed in the top frame
+	usedAxioms  []*AxiomSpec     // axioms of the contract under verification (re-assumed after havocs)
+	inAxiom     bool
+	inTypeInv   bool
+	freshSink   map[string]bool // loop analysis: heap variables written only at fresh objects
 	curBlock    *ssa.BasicBlock  // block of the top frame being executed
 	siteBlock   *ssa.BasicBlock  // block of the assert-at site being evaluated
 	fieldRange  map[string][2]string
@@ -137,6 +146,9 @@ type VC struct {
 	immutable   map[string]bool
 	siteCounted map[string]bool
 	seenObl     map[string]bool
+	curFrame    *Frame
+	curCall     *ssa.CallCommon
+	curCaller   *ssa.Function
 	curIface    *types.Named
 	curMethod   *types.Func
 }
@@ -319,6 +331,8 @@ func (vc *VC) zeroOf(t types.Type) Term {
 			return vc.floatConst("0")
 		case u.Info()&types.IsString != 0:
 			return vc.strConst("")
+		case u.Kind() == types.UnsafePointer:
+			return "nil"
 		}
 		return "0"
 	case *types.Slice:
@@ -424,10 +438,10 @@ func (vc *VC) typeInv(x Term, t types.Type) Term {
 			return "(and (<= " + lo + " " + x + ") (<= " + x + " " + hi + "))"
 		}
 		if u.Info()&types.IsString != 0 {
-			return "(>= " + vc.slenOf(x) + " 0)"
+			return "(and (>= " + vc.slenOf(x) + " 0) (<= " + vc.slenOf(x) + " 281474976710656))"
 		}
 	case *types.Slice:
-		return fmt.Sprintf("(and (>= (s.off %s) 0) (>= (s.len %s) 0) (<= (s.len %s) (s.cap %s)) (<= (s.cap %s) 4611686018427387904) (=> (= (s.arr %s) nil) (= (s.cap %s) 0)))", x, x, x, x, x, x, x)
+		return fmt.Sprintf("(and (>= (s.off %s) 0) (>= (s.len %s) 0) (<= (s.len %s) (s.cap %s)) (<= (s.cap %s) 281474976710656) (=> (= (s.arr %s) nil) (= (s.cap %s) 0)))", x, x, x, x, x, x, x)
 	case *types.Struct:
 		var cs []string
 		for i := 0; i < u.NumFields(); i++ {
@@ -468,6 +482,7 @@ func (vc *VC) introduce(st *State, x Term, t types.Type) {
 		if ai := vc.allocInv(x, t, st.heap["CLK"]); ai != "true" {
 			vc.assumeAt(st, ai)
 		}
+		vc.typeInvFact(st, x, t)
 	}
 }
 
@@ -552,6 +567,61 @@ func (vc *VC) get(st *State, name string) Term {
 
 func (vc *VC) set(st *State, name string, t Term) {
 	st.heap[name] = vc.define(name, vc.heapSort[name], t)
+	if vc.verClk == nil {
+		vc.verClk = map[Term]Term{}
+	}
+	// every reference held in this version was allocated before the current clock
+	vc.verClk[st.heap[name]] = st.heap["CLK"]
+}
+
+// clkOfVersion: an upper bound on the allocation time of every reference held
+// in the current version of heap variable name (the clock when that version
+// was created; the current clock when that is not tracked).
+func (vc *VC) clkOfVersion(st *State, name string) Term {
+	if c, ok := vc.verClk[st.heap[name]]; ok {
+		return c
+	}
+	return st.heap["CLK"]
+}
+
+// typeInvFact assumes the declared `typeinv` of a pointer value in state st.
+func (vc *VC) typeInvFact(st *State, x Term, t types.Type) {
+	if len(vc.eng.cs.TypeInvs) == 0 || vc.inTypeInv || strings.Contains(x, "q_") {
+		return
+	}
+	pt, ok := t.Underlying().(*types.Pointer)
+	if !ok {
+		return
+	}
+	n, ok := types.Unalias(pt.Elem()).(*types.Named)
+	if !ok || n.Obj().Pkg() == nil {
+		return
+	}
+	pn, ok := vc.eng.cs.TypeInvs[n.Obj().Pkg().Path()+"."+n.Obj().Name()]
+	if !ok {
+		return
+	}
+	p := vc.eng.cs.Preds[pn]
+	if p == nil || len(p.Params) != 1 {
+		return
+	}
+	vc.inTypeInv = true
+	env := &SpecEnv{vc: vc, fn: nil, pkgPath: p.PkgPath, binds: map[string]Val{p.Params[0]: {T: x, Ty: t}}, cur: st, old: st}
+	f := env.boolExpr(p.Expr)
+	vc.inTypeInv = false
+	vc.assumeAt(st, smtImp("(not (= "+x+" nil))", f))
+	vc.note("type invariant " + pn + " assumed for every *" + n.Obj().Name() + " value read")
+}
+
+// introduceFrom is introduce for a value just read from heap variable name.
+func (vc *VC) introduceFrom(st *State, x Term, t types.Type, name string) {
+	if ti := vc.typeInv(x, t); ti != "true" {
+		vc.assume(ti)
+	}
+	if ai := vc.allocInv(x, t, vc.clkOfVersion(st, name)); ai != "true" {
+		vc.assumeAt(st, ai)
+	}
+	vc.typeInvFact(st, x, t)
 }
 
 func (vc *VC) initialState() *State {
@@ -563,6 +633,14 @@ func (vc *VC) initialState() *State {
 			continue
 		}
 		st.heap[name] = vc.declConst(name+"@0", vc.heapSort[name])
+	}
+	if vc.verClk == nil {
+		vc.verClk = map[Term]Term{}
+	}
+	for _, name := range vc.heapOrder {
+		if name != "CLK" && !strings.HasPrefix(name, "DF_") {
+			vc.verClk[st.heap[name]] = st.heap["CLK"]
+		}
 	}
 	return st
 }
@@ -591,6 +669,17 @@ func (vc *VC) preserveLocals(old, st *State) {
 	for _, l := range st.locals {
 		vc.copyObject(old, st, l.ref, l.ty)
 	}
+	// the axioms a contract `uses` are global invariants (assumed, listed in
+	// the evidence): they hold again after anything a callee may have done
+	if vc.inAxiom {
+		return
+	}
+	vc.inAxiom = true
+	for _, ax := range vc.usedAxioms {
+		env := &SpecEnv{vc: vc, fn: nil, pkgPath: ax.PkgPath, binds: map[string]Val{}, cur: st, old: st}
+		vc.assumeAt(st, env.boolExpr(ax.Expr))
+	}
+	vc.inAxiom = false
 }
 
 func (vc *VC) copyObject(old, st *State, ref Term, t types.Type) {
@@ -835,9 +924,19 @@ func (o *Obligation) query() string {
 	if vc.smtStr {
 		// no extra prelude
 	}
+	// datatype declarations first (a restart pass re-declares heap variables
+	// before the code that introduced their element sorts has run again)
 	for _, d := range vc.decls {
-		b.WriteString(d)
-		b.WriteByte('\n')
+		if strings.HasPrefix(d, "(declare-datatypes") {
+			b.WriteString(d)
+			b.WriteByte('\n')
+		}
+	}
+	for _, d := range vc.decls {
+		if !strings.HasPrefix(d, "(declare-datatypes") {
+			b.WriteString(d)
+			b.WriteByte('\n')
+		}
 	}
 	// string constants: distinct, lengths, bytes
 	if len(vc.strOrder) > 0 {
@@ -896,6 +995,7 @@ type retEntry struct {
 	block *ssa.BasicBlock
 	vals  []Val
 	ord   int // ordinal of the call site among the calls to name (execution order of the VC)
+	reach Term // path condition under which the call was made
 }
 
 // lookupRet: results of the latest call to callee that dominates the current
@@ -918,5 +1018,169 @@ func (vc *VC) lookupRet(callee string) ([]Val, bool) {
 			return e.vals, true
 		}
 	}
+	// No dominating call: take the latest recorded one.  Its result is an
+	// unconstrained constant on paths that do not pass through the call, so a
+	// clause has to guard its use (ret("Deadline",1) ==> ... ret("Until",0) ...).
+	for i := len(vc.retLog) - 1; i >= 0; i-- {
+		e := vc.retLog[i]
+		if calleeMatch(e.name, callee) && (want == 0 || e.ord == want) {
+			return e.vals, true
+		}
+	}
 	return nil, false
+}
+
+// f64pair states, for one pair of float terms, how Go's comparison operators
+// relate: a total order on non-NaN values, every comparison with a NaN false.
+// (Instantiated per compared pair; floats are otherwise uninterpreted.)
+func (vc *VC) f64pair(a, b Term) {
+	if strings.Contains(a, "q_") || strings.Contains(b, "q_") {
+		return
+	}
+	key := "f64pair:" + a + "|" + b
+	if vc.seenFact == nil {
+		vc.seenFact = map[string]bool{}
+	}
+	if vc.seenFact[key] || vc.seenFact["f64pair:"+b+"|"+a] {
+		return
+	}
+	vc.seenFact[key] = true
+	vc.decl("fun:f64_eq", "(declare-fun f64_eq (F64 F64) Bool)")
+	vc.decl("fun:f64_lt", "(declare-fun f64_lt (F64 F64) Bool)")
+	vc.decl("fun:f64_le", "(declare-fun f64_le (F64 F64) Bool)")
+	vc.decl("fun:f64_isnan", "(declare-fun f64_isnan (F64) Bool)")
+	nan := fmt.Sprintf("(or (f64_isnan %s) (f64_isnan %s))", a, b)
+	vc.assume(fmt.Sprintf("(=> %s (and (not (f64_lt %s %s)) (not (f64_le %s %s)) (not (f64_lt %s %s)) (not (f64_le %s %s)) (not (f64_eq %s %s)) (not (f64_eq %s %s))))", nan, a, b, a, b, b, a, b, a, a, b, b, a))
+	vc.assume(fmt.Sprintf("(=> (not %s) (and (= (f64_le %s %s) (not (f64_lt %s %s))) (= (f64_le %s %s) (not (f64_lt %s %s))) (= (f64_eq %s %s) (and (f64_le %s %s) (f64_le %s %s))) (= (f64_eq %s %s) (f64_eq %s %s))))", nan, a, b, b, a, b, a, a, b, a, b, a, b, b, a, a, b, b, a))
+}
+
+// declI2F declares int64 -> float64 conversion: never NaN, weakly monotone.
+func (vc *VC) declI2F() {
+	vc.decl("fun:f64_le", "(declare-fun f64_le (F64 F64) Bool)")
+	vc.decl("fun:f64_isnan", "(declare-fun f64_isnan (F64) Bool)")
+	vc.decl("fun:i2f", "(declare-fun i2f (Int) F64)\n(assert (forall ((n Int)) (! (not (f64_isnan (i2f n))) :pattern ((i2f n)))))\n(assert (forall ((a Int) (b Int)) (! (=> (<= a b) (f64_le (i2f a) (i2f b))) :pattern ((i2f a) (i2f b)))))")
+}
+
+// ---------------------------------------------------------------- keeps Type.flag
+
+type keepItem struct {
+	name string // obligation anchor
+	// fact builds "for object r (and element index i): value in post == value in pre"
+	goal func(r, i Term) Term
+	elem bool
+	fa, ma, mb Term // element items: slice field array (pre), element memory pre/post
+}
+
+// keepsItems lists, for `keeps T.flag`, one item per heap variable that
+// differs between pre and post: the fields of T on objects whose flag was set
+// in pre, and the elements of T's slice-of-pointer fields.
+func (vc *VC) keepsItems(con *Contract, sel string, pre, post *State) (flagVar string, items []keepItem) {
+	i := strings.LastIndex(sel, ".")
+	if i < 0 {
+		return "", nil
+	}
+	st := vc.eng.lookupType(con.PkgPath, sel[:i])
+	if st == nil {
+		for _, pk := range []string{repoPrefix + "/lisp"} {
+			if st = vc.eng.lookupType(pk, sel[:i]); st != nil {
+				break
+			}
+		}
+	}
+	if st == nil {
+		vc.eng.errorf("%s: keeps: unknown type %s (contract target changed)", con.Target, sel[:i])
+		return "", nil
+	}
+	su, ok := st.Underlying().(*types.Struct)
+	if !ok {
+		return "", nil
+	}
+	fidx := -1
+	for k := 0; k < su.NumFields(); k++ {
+		if su.Field(k).Name() == sel[i+1:] {
+			fidx = k
+		}
+	}
+	if fidx < 0 {
+		vc.eng.errorf("%s: keeps: no field %s (contract target changed)", con.Target, sel)
+		return "", nil
+	}
+	flagVar = vc.fieldVar(st, fidx)
+	for k := 0; k < su.NumFields(); k++ {
+		ft := su.Field(k).Type()
+		switch ft.Underlying().(type) {
+		case *types.Struct, *types.Array:
+			continue
+		}
+		hv := vc.fieldVar(st, k)
+		a, b := vc.get(pre, hv), vc.get(post, hv)
+		if a != b {
+			a, b := a, b
+			items = append(items, keepItem{name: sel[:i] + "." + su.Field(k).Name(), goal: func(r, _ Term) Term {
+				return fmt.Sprintf("(= (select %s %s) (select %s %s))", b, r, a, r)
+			}})
+		}
+		if sl, ok := ft.Underlying().(*types.Slice); ok {
+			if _, isPtr := sl.Elem().Underlying().(*types.Pointer); isPtr {
+				mv := vc.memVar(sl.Elem())
+				ma, mb := vc.get(pre, mv), vc.get(post, mv)
+				if ma != mb {
+					fa := a
+					items = append(items, keepItem{name: "elements and spare capacity of " + sel[:i] + "." + su.Field(k).Name(), elem: true, fa: fa, ma: ma, mb: mb, goal: func(r, ix Term) Term {
+						sl := fmt.Sprintf("(select %s %s)", fa, r)
+						loc := fmt.Sprintf("(elem (s.arr %s) (+ (s.off %s) %s))", sl, sl, ix)
+						return fmt.Sprintf("(=> (and (<= 0 %s) (< %s (s.cap %s))) (= (select %s %s) (select %s %s)))", ix, ix, sl, mb, loc, ma, loc)
+					}})
+				}
+			}
+		}
+	}
+	return flagVar, items
+}
+
+// keepsAssume states the `keeps` guarantee of a callee between pre and post.
+func (vc *VC) keepsAssume(con *Contract, pre, post *State) {
+	for _, sel := range con.Keeps {
+		flagVar, items := vc.keepsItems(con, sel, pre, post)
+		if flagVar == "" {
+			continue
+		}
+		flag := vc.get(pre, flagVar)
+		for _, it := range items {
+			if it.elem {
+				sl := fmt.Sprintf("(select %s r)", it.fa)
+				loc := fmt.Sprintf("(elem (s.arr %s) j)", sl)
+				vc.assumeAt(post, fmt.Sprintf("(forall ((r Ref) (j Int)) (! (=> (and (select %s r) (<= (s.off %s) j) (< j (+ (s.off %s) (s.cap %s)))) (= (select %s %s) (select %s %s))) :pattern ((select %s r) (select %s %s))))",
+					flag, sl, sl, sl, it.mb, loc, it.ma, loc, flag, it.mb, loc))
+				continue
+			}
+			vc.assumeAt(post, fmt.Sprintf("(forall ((r Ref)) (! (=> (select %s r) %s) :pattern ((select %s r))))", flag, it.goal("r", "0"), flag))
+		}
+	}
+}
+
+// keepsOblige asserts the `keeps` guarantee between pre and st under the name kind/anchor.
+func (vc *VC) keepsOblige(con *Contract, pre, st *State, kind string, pos token.Pos) {
+	for _, sel := range con.Keeps {
+		flagVar, items := vc.keepsItems(con, sel, pre, st)
+		if flagVar == "" {
+			continue
+		}
+		flag := vc.get(pre, flagVar)
+		for _, it := range items {
+			r := vc.freshConst("keep_r", "Ref")
+			ix := vc.freshConst("keep_i", "Int")
+			closure := "true"
+			if it.elem {
+				// heap closure: the array a stored slice refers to was allocated
+				// before the clock of the state it is stored in
+				closure = fmt.Sprintf("(< (at (s.arr (select %s %s))) %s)", it.fa, r, pre.heap["CLK"])
+			}
+			goal := fmt.Sprintf("(=> (and (< (at %s) %s) (select %s %s) %s) %s)", r, pre.heap["CLK"], flag, r, closure, it.goal(r, ix))
+			o := vc.oblige(st, kind, sel+" objects keep "+it.name, goal, pos)
+			if o != nil {
+				o.Pos = con.Pos
+			}
+		}
+	}
 }
